@@ -191,8 +191,15 @@ struct SliceRun {
     panicked: bool,
 }
 
-fn run_slice(n: usize, threads: usize, fail: &[usize], stop: StopHow, spin: u32) -> SliceRun {
-    let mut input: Vec<u64> = (0..n as u64).collect();
+/// `release`: if set, all workers are held in `new_thread_state` until every one of them has
+/// arrived (spin barrier) and then start after a per-thread seeded delay, so that they reach the
+/// shared counter at the same moment, in varying orders.
+fn run_slice(n: usize, threads: usize, fail: &[usize], stop: StopHow, spin: u32, release: Option<&[u32]>) -> SliceRun {
+    // spare capacity: should the code under test ever hand out an index past the slice, the
+    // reference still points into this allocation
+    let mut input: Vec<u64> = Vec::with_capacity(n + 64);
+    input.extend(0..n as u64);
+    let arrived = AtomicUsize::new(0);
     let base = input.as_ptr() as usize;
     let counts: Vec<AtomicUsize> = (0..n).map(|_| AtomicUsize::new(0)).collect();
     let calls: Mutex<Vec<(usize, usize, bool)>> = Mutex::new(Vec::new());
@@ -203,7 +210,23 @@ fn run_slice(n: usize, threads: usize, fail: &[usize], stop: StopHow, spin: u32)
         parallel::in_parallel_with_slice(
             &mut input,
             Some(threads),
-            |thread_id| thread_id,
+            |thread_id| {
+                if let Some(delays) = release {
+                    arrived.fetch_add(1, Ordering::SeqCst);
+                    let mut spins = 0u64;
+                    while arrived.load(Ordering::SeqCst) < threads {
+                        std::hint::spin_loop();
+                        spins += 1;
+                        if spins % 64 == 0 {
+                            std::thread::yield_now();
+                        }
+                    }
+                    for _ in 0..delays.get(thread_id).copied().unwrap_or(0) {
+                        std::hint::spin_loop();
+                    }
+                }
+                thread_id
+            },
             |item: &mut u64, thread_id: &mut usize, _threads_left: &AtomicIsize, should_interrupt: &AtomicBool| -> Result<(), u32> {
                 let index = (item as *const u64 as usize).wrapping_sub(base) / std::mem::size_of::<u64>();
                 if index < counts.len() {
@@ -343,7 +366,24 @@ fn linearize(run: &SliceRun) -> Result<Vec<String>, Vec<String>> {
 }
 
 fn do_slice(rep: &mut Report, n: usize, threads: usize, fail: &[usize], stop: StopHow, spin: u32, with_model: bool) {
-    let run = run_slice(n, threads, fail, stop, spin);
+    do_slice_released(rep, n, threads, fail, stop, spin, with_model, None)
+}
+
+#[allow(clippy::too_many_arguments)]
+fn do_slice_released(
+    rep: &mut Report,
+    n: usize,
+    threads: usize,
+    fail: &[usize],
+    stop: StopHow,
+    spin: u32,
+    with_model: bool,
+    release: Option<&[u32]>,
+) {
+    let run = run_slice(n, threads, fail, stop, spin, release);
+    if release.is_some() {
+        rep.bucket("slice:workers-released-together");
+    }
     let desc = format!(
         "slice n={n} threads={threads} fail={:?} stop={:?}",
         fail, stop
@@ -370,6 +410,12 @@ fn do_slice(rep: &mut Report, n: usize, threads: usize, fail: &[usize], stop: St
     }
     if let Some((i, _, _)) = run.calls.iter().find(|c| c.0 >= n) {
         problem = Some(format!("consume was handed an item outside the slice (index {i} of {n})"));
+    }
+    if let Some(i) = run.log.iter().find_map(|(_, e)| match e {
+        verif::Event::Claimed(i) if *i >= n => Some(*i),
+        _ => None,
+    }) {
+        problem = Some(format!("a worker claimed index {i} of a slice of {n} items"));
     }
     if let Some(i) = run.counts.iter().position(|c| *c > 1) {
         problem = Some(format!("item {i} was consumed {} times", run.counts[i]));
@@ -465,7 +511,7 @@ fn do_in_parallel(rep: &mut Report, n: usize, threads: usize, fail_at: Option<us
     let c2 = counts.clone();
     let f2 = finalized.clone();
     let d2 = desc.clone();
-    let res = with_deadline(std::time::Duration::from_secs(60), move || {
+    let res = with_deadline(std::time::Duration::from_secs(20), move || {
         let consume = {
             let c = c2.clone();
             move |item: usize, _state: &mut usize| {
@@ -496,7 +542,7 @@ fn do_in_parallel(rep: &mut Report, n: usize, threads: usize, fail_at: Option<us
     });
     let key = d2;
     match res {
-        None => report_fail(rep, &key, "did not terminate within 60 s", &format!("# {desc}")),
+        None => report_fail(rep, &key, "did not terminate within 20 s", &format!("# {desc}")),
         Some(Err(_)) => report_fail(rep, &key, "panicked", &format!("# {desc}")),
         Some(Ok(r)) => {
             let cs: Vec<usize> = counts.iter().map(|c| c.load(Ordering::SeqCst)).collect();
@@ -553,14 +599,17 @@ impl Drop for LiveGuard {
 }
 
 /// `Stepwise`: take a few results, drop it, all its threads must be gone when `drop` returns.
-fn do_stepwise_drop(rep: &mut Report, n: usize, threads: usize, take: usize) {
+/// Returns `false` if the drop hung (the hung threads stay around: the caller stops this family).
+fn do_stepwise_drop(rep: &mut Report, n: usize, threads: usize, take: usize) -> bool {
     let desc = format!("stepwise-drop n={n} threads={threads} take={take}");
+    let consumed = Arc::new(AtomicUsize::new(0));
+    let consumed2 = consumed.clone();
     rep.oracle_only(&desc, true);
     rep.oracle_checked();
     rep.bucket("stepwise:drop");
     let live = Arc::new(AtomicIsize::new(0));
     let l2 = live.clone();
-    let res = with_deadline(std::time::Duration::from_secs(60), move || {
+    let res = with_deadline(std::time::Duration::from_secs(8), move || {
         let l3 = l2.clone();
         let mut it = parallel::reduce::Stepwise::new(
             0..n,
@@ -569,7 +618,10 @@ fn do_stepwise_drop(rep: &mut Report, n: usize, threads: usize, take: usize) {
                 l3.fetch_add(1, Ordering::SeqCst);
                 LiveGuard(l3.clone())
             },
-            |item: usize, _s: &mut LiveGuard| item,
+            move |item: usize, _s: &mut LiveGuard| {
+                consumed2.fetch_add(1, Ordering::SeqCst);
+                item
+            },
             CountingReducer { fed: Vec::new(), fail_at: None },
         );
         let mut got = Vec::new();
@@ -583,8 +635,17 @@ fn do_stepwise_drop(rep: &mut Report, n: usize, threads: usize, take: usize) {
         (got, l2.load(Ordering::SeqCst))
     });
     match res {
-        None => report_fail(rep, &desc, "dropping the step-wise run did not return within 60 s", &format!("# {desc}")),
-        Some(Err(_)) => report_fail(rep, &desc, "panicked", &format!("# {desc}")),
+        None => {
+            let c = consumed.load(Ordering::SeqCst);
+            report_fail(
+                rep,
+                &format!("stepwise-drop-hangs n={n} threads={threads} take={take}"),
+                &format!("dropping the step-wise run after {take} of {n} results did not return within 8 s: its threads are not terminated (consumed={c}, worker states alive={})", live.load(Ordering::SeqCst)),
+                &format!("stepwise {n} {threads} {take}"),
+            );
+            return false;
+        }
+        Some(Err(_)) => report_fail(rep, &desc, "panicked", &format!("stepwise {n} {threads} {take}")),
         Some(Ok((got, live_after))) => {
             let mut g = got.clone();
             g.sort();
@@ -594,10 +655,11 @@ fn do_stepwise_drop(rep: &mut Report, n: usize, threads: usize, take: usize) {
             } else if got.len() != take.min(n) {
                 report_fail(rep, &desc, &format!("only {} of {} results arrived", got.len(), take.min(n)), &format!("# {desc}"));
             } else if live_after != 0 {
-                report_fail(rep, &desc, &format!("{live_after} worker threads still alive after drop"), &format!("# {desc}"));
+                report_fail(rep, &desc, &format!("{live_after} worker threads still alive after drop"), &format!("stepwise {n} {threads} {take}"));
             }
         }
     }
+    true
 }
 
 fn do_eager(rep: &mut Report, n: usize, chunk: usize, in_flight: usize) {
@@ -641,8 +703,15 @@ fn main() {
                     let n: usize = a[1].parse().unwrap_or(0);
                     let t: usize = a[2].parse().unwrap_or(1);
                     let fail: Vec<usize> = a[3..].iter().filter_map(|x| x.strip_prefix('R')).filter_map(|x| x.split_once(':')).filter_map(|x| x.1.parse().ok()).collect();
-                    for _ in 0..20 {
-                        do_slice(&mut rep, n, t.max(1), &fail, StopHow::Never, 0, n <= 300);
+                    for i in 0..400u32 {
+                        let delays: Vec<u32> = (0..t.max(1)).map(|_| r.below(1 + (i as u64 % 7) * 40) as u32).collect();
+                        do_slice_released(&mut rep, n, t.max(1), &fail, StopHow::Never, 0, n <= 300, Some(&delays));
+                    }
+                }
+                "stepwise" if a.len() == 4 => {
+                    let p: Vec<usize> = a[1..].iter().filter_map(|x| x.parse().ok()).collect();
+                    if p.len() == 3 {
+                        do_stepwise_drop(&mut rep, p[0], p[1].max(1), p[2]);
                     }
                 }
                 _ => rep.note(&format!("replay: {op} is re-generated by seed only")),
@@ -712,6 +781,17 @@ fn main() {
             }
         }
     }
+    // many tiny rounds with all workers released at the same moment in seeded orders: a claim of
+    // an index that is not ONE atomic read-modify-write (check-then-act) shows up here as an
+    // index >= len, and its event log is rejected by the Lean replay
+    for round in 0..args.budget(1_500, 40_000) {
+        let n = 1 + (round % 2) as usize;
+        let threads = 3 + r.usize(4);
+        let spread = *r.pick(&[0u64, 0, 10, 60, 300]);
+        let delays: Vec<u32> = (0..threads).map(|_| r.below(spread + 1) as u32).collect();
+        let fail: Vec<usize> = if r.chance(1, 10) { vec![r.usize(n)] } else { vec![] };
+        do_slice_released(&mut rep, n, threads, &fail, StopHow::Never, 0, true, Some(&delays));
+    }
     // random instances with the model in the loop (event log replayed)
     for _ in 0..args.budget(500, 12_000) {
         let n = match r.below(4) {
@@ -760,10 +840,18 @@ fn main() {
         let fail_at = if r.chance(1, 2) { Some(r.usize(n + 1)) } else { None };
         do_in_parallel(&mut rep, n, threads, fail_at, r.chance(1, 3));
     }
+    // dropping before exhaustion with far more items outstanding than the channels hold
+    let mut stepwise_ok = true;
+    for (n, threads, take) in [(100usize, 1usize, 0usize), (100, 2, 1), (64, 4, 3), (1000, 3, 10), (50, 8, 0), (5, 2, 5), (0, 2, 0)] {
+        stepwise_ok = stepwise_ok && do_stepwise_drop(&mut rep, n, threads, take);
+    }
     for _ in 0..args.budget(40, 1_000) {
         let n = r.usize(2_000);
         let threads = 1 + r.usize(8);
-        do_stepwise_drop(&mut rep, n, threads, r.usize(n + 2));
+        let take = if r.chance(1, 2) { r.usize(n / 4 + 1) } else { r.usize(n + 2) };
+        if stepwise_ok {
+            stepwise_ok = do_stepwise_drop(&mut rep, n, threads, take);
+        }
         do_eager(&mut rep, r.usize(500), 1 + r.usize(20), r.usize(4));
     }
     rep.finish();
